@@ -36,6 +36,11 @@ def c15(ctx):
     # the calls that follow must still see exactly the committed state
     graphs.append(dict(graphs[0], name="c15-ovl", driver_args=[lib, "2", "1", "file", "overlap"],
                        maxwalks=1000 if quick else None))
+    # a REFUSED C_SetAttributeValue in between must not change what a process sees of the others' later changes
+    KB = '{"create", "badset", "get", "destroy", "find"}'
+    graphs.append(dict(name="c15-badset", constants=dict(Procs="{1, 2}", MaxO="2", Vals="{0, 1}", NCalls="0", Logged="{1}", Kinds=KB),
+                       trace_constants=dict(Procs="{1, 2, 3}", MaxO="6", Vals="{0, 1, 2}", NCalls="0", Logged="{1}", Kinds=KB),
+                       driver_args=[lib, "2", "1"], maxlen=30, maxwalks=1200 if quick else None))
     if not quick:
         graphs.append(dict(name="c15-calls3", constants=dict(Procs="{1, 2, 3}", MaxO="2", Vals="{0, 1}", NCalls="0", Logged="{1, 3}",
                                                              Kinds=K5),
